@@ -362,6 +362,10 @@ def run(chk, repo, tier):
     from .c06 import product_rules, insert_rules
     from . import common as _common
     product_rules(chk, repo, 'C02-p')
+    from .prop_flow import own_storage_rule
+    own_storage_rule(chk, repo, 'C02-p')
+    from .prop_flow import skip_rule as _skip_rule
+    _skip_rule(chk, repo, 'C02-p')
     insert_rules(chk, repo, 'C02-p')
     _common.mul_concat(chk, repo, 'C02-p')
     chk.clause('C02-k', 'the transform the propagator calls evaluates the Fraunhofer kernel: phase -2*pi*i*alpha*(u - shift)(x + offset) '
